@@ -21,8 +21,8 @@ ASSUMPTIONS = [
     "Python semantics assumed by the model: generator-based @contextmanager (statements after `yield` are skipped when the body raises unless in `finally`); an abandoned generator (factor_iteration, split_gls) is finalised by CPython as soon as the exception that made its consumer stop has been handled (the harness drops the exception and calls gc.collect() before it looks at the state); iteration over a `set` of small ints is ascending; dict insertion order",
     "faults are: user code raising inside a block body, the k-th density evaluation inside a computation raising (harness wraps decay_group.sum_amp / get_amp), and a value that tf.Variable.assign rejects in a params dict; faults inside the restore statements themselves are not modelled",
     "parameter values are abstract in the model (pool index; Bound.get_y2x kept symbolic and evaluated with the real Bound object by the harness); variables with pre_trans / shared (same_list) variables are not in the test model",
-    "the correspondence covers the default AmplitudeModel built by ConfigLoader from a 3-chain dict config; BaseAmplitudeModel.partial_weight is exercised as an unbound call on that object; cal_fitfractions_no_grad, build_angle_amp_matrix and build_int_matrix share the patched pattern of cal_fitfractions / build_amp_matrix and are not driven separately",
-    "HelicityDecay.single_gls (set by set_ls, read nowhere in the package) is not part of the observed state",
+    "the correspondence covers two default AmplitudeModels built by ConfigLoader from dict configs: A (3-body, 3 chains, every chain its own decay objects) and B (4-body cascade, 3 chains that share the decay object A->X+E and the resonance X); mask_factor and the ls selection are observed once per distinct chain / decay object; BaseAmplitudeModel.partial_weight is exercised as an unbound call on that object; cal_fitfractions_no_grad, build_angle_amp_matrix and build_int_matrix share the patched pattern of cal_fitfractions / build_amp_matrix and are not driven separately",
+    "HelicityDecay.single_gls (set by set_ls, read nowhere in the package) is not part of the modelled state; it is covered, like every other plainly-typed attribute of the decay group and of every distinct chain / decay / particle object, by the attribute comparison the search makes whenever the modelled state is restored",
     "quick tier only: in two of three random programs the density evaluations inside a computation after its first one return the first result again (the harness already wraps that function to inject faults); probes, systematic programs and the thorough tier evaluate every time",
 ]
 
@@ -40,6 +40,22 @@ CFG = {
         "R_CD": {"J": 1, "Par": 1, "m0": 2.42, "g0": 0.03},
     },
 }
+# second real model: a 4-body cascade whose three chains SHARE the decay object A->X+E (two (l,s) couplings) and the
+# resonance X; anything the 3-body model hides by giving every chain its own decay objects shows up here
+CFG4 = {
+    "data": {"dat_order": ["B", "C", "D", "E"]},
+    "decay": {"A": [["X", "E"]], "X": [["R1", "D"], ["R2", "B"], ["R3", "C"]], "R1": ["B", "C"], "R2": ["C", "D"], "R3": ["B", "D"]},
+    "particle": {
+        "$top": {"A": {"J": 1, "P": -1, "spins": [-1, 1], "mass": 5.0}},
+        "$finals": {"B": {"J": 1, "P": -1, "mass": 2.0}, "C": {"J": 0, "P": -1, "mass": 0.5}, "D": {"J": 0, "P": -1, "mass": 0.14},
+                    "E": {"J": 0, "P": -1, "mass": 0.14}},
+        "X": {"J": 1, "P": 1, "m0": 4.3, "g0": 0.4},
+        "R1": {"J": 1, "P": -1, "m0": 2.8, "g0": 0.1},
+        "R2": {"J": 1, "P": -1, "m0": 1.0, "g0": 0.2},
+        "R3": {"J": 1, "P": 1, "m0": 2.4, "g0": 0.1},
+    },
+}
+CFGS = {"A": CFG, "B": CFG4}
 CFG_KEYS = ["verif_c17_a", "verif_c17_b"]
 N_EVENTS = 16
 
@@ -52,8 +68,19 @@ class Fault(Exception):
 # the real objects
 # --------------------------------------------------------------------------
 
+def distinct(objs):
+    """objects de-duplicated by identity, first occurrence first"""
+    seen, out = set(), []
+    for o in objs:
+        if id(o) not in seen:
+            seen.add(id(o))
+            out.append(o)
+    return out
+
+
 class Rig:
-    def __init__(self):
+    def __init__(self, name="A"):
+        self.name = name
         import numpy as np
         import tensorflow as tf
         from tf_pwa import config as tcfg
@@ -62,7 +89,7 @@ class Rig:
         self.tcfg = tcfg
         np.random.seed(1717)
         tf.random.set_seed(1717)
-        self.config = ConfigLoader(CFG)
+        self.config = ConfigLoader(CFGS[name])
         self.amp = self.config.get_amplitude()
         self.dg = self.amp.decay_group
         self.vm = self.amp.vm
@@ -72,20 +99,21 @@ class Rig:
         self.data = self.config.data.cal_angle(p)
         self.chains = list(self.dg.chains)
         self.n = len(self.chains)
-        self.decays = [d for ch in self.chains for d in ch]
-        self.chain_decays, k = [], 0
-        for ch in self.chains:
-            m = len(list(ch))
-            self.chain_decays.append(list(range(k, k + m)))
-            k += m
+        # decay objects are observed per distinct OBJECT: a decay shared by several chains is one entry
+        self.decays = distinct(d for ch in self.chains for d in ch)
+        pos = {id(d): i for i, d in enumerate(self.decays)}
+        self.chain_decays = [[pos[id(d)] for d in ch] for ch in self.chains]
+        self.shared_decays = [i for i in range(len(self.decays)) if sum(i in cd for cd in self.chain_decays) > 1]
         for d in self.decays:
             d.set_ls(list(d.get_ls_list()))  # fixes total_ls, ls_index = None
         self.n_ls = [len(d.total_ls) for d in self.decays]
-        self.mask_part = []
+        mask_part = []
         for ch in self.dg:
-            self.mask_part.append(ch)
+            mask_part.append(ch)
             for d in ch:
-                self.mask_part.append(d)
+                mask_part.append(d)
+        self.mask_part = distinct(mask_part)  # every chain and decay object once
+        self.attr_objs = distinct([self.dg] + self.chains + self.decays + [self.dg.top] + list(self.dg.resonances) + list(self.dg.outs))
         self.res = list(self.dg.resonances)
         self.res_names = [str(r) for r in self.res]
         self.res_chains = [[j for j, c in enumerate(self.chains) if r in c.inner] for r in self.res]
@@ -105,6 +133,7 @@ class Rig:
         self.base_params = [self.pid(float(self.vm.variables[n].numpy())) for n in self.names]
         rnd = random.Random(99)
         self.rand_ids = [self.pid(round(rnd.uniform(-2.0, 2.0), 6)) for _ in range(24)]
+        self.density()  # settles lazily initialised attributes before anything is compared
         self.factor_masks = []
         for ch in self.chains:
             ds = list(ch)
@@ -161,6 +190,20 @@ class Rig:
             "config": [C.f2h(float(self.tcfg.get_config(k))) for k in CFG_KEYS],
             "ls": [list(d.ls_index) if d.ls_index is not None else list(range(len(d.total_ls))) for d in self.decays],
         }
+
+    def attrs(self):
+        """every plainly-typed attribute of the decay group, of every chain, decay and particle object (once per distinct
+        object): a net for state that is aliased between chains or simply not part of `snap`"""
+        def plain(v):
+            if v is None or type(v) in (bool, int, float, str):
+                return True
+            return type(v) in (list, tuple) and all(plain(x) for x in v)
+        out = {}
+        for i, o in enumerate(self.attr_objs):
+            for k, v in vars(o).items():
+                if plain(v):
+                    out["%d:%s.%s" % (i, type(o).__name__, k)] = repr(v)
+        return out
 
     def view(self):
         return [C.f2h(float(v)) for v in self.amp.get_params().values()]
@@ -303,19 +346,23 @@ class Rig:
         self.replay_evals = replay_evals
         self.put(st)
         self.n_evals = 0
-        before = self.snap()
         d0 = self.density()
+        before = self.snap()
+        attrs0 = self.attrs()
         rec, raised, text = [], False, ""
         try:
             self.run_node(prog, rec)
         except Exception as e:
             raised, text = True, "%s: %s" % (type(e).__name__, str(e)[:200])
         after = self.snap()
-        same_density = True
-        if after == before:
-            same_density = self.density() == d0
+        # density of the fixed sample before / after EVERY program; it must be bit-identical whenever the observed
+        # state is (a difference then means state the snapshot does not see)
+        attrs1 = self.attrs()
+        hidden = sorted(k.split(":", 1)[1] for k in set(attrs0) | set(attrs1) if attrs0.get(k) != attrs1.get(k)) if after == before else []
+        density_changed = self.density() != d0
+        same_density = not (after == before and density_changed)
         return {"raised": raised, "text": text, "before": before, "after": after, "nodes": rec, "same_density": same_density,
-                "evals": self.n_evals}
+                "density_changed": density_changed, "hidden_attrs": hidden, "evals": self.n_evals}
 
 
 SITE_NAME = {
@@ -473,6 +520,7 @@ def probes(rig):
     P.append(("usedRes", "temp_used_res, body raises", {}, blk(("ur", [("r", 1)]), raise_)))
     P.append(("glsOne", "temp_total_gls_one, body raises", {}, blk(("g1",), raise_)))
     P.append(("glsOne", "temp_total_gls_one, normal exit", {"mf": [True] + [False] * (len(rig.mask_part) - 1)}, blk(("g1",))))
+    P.append(("glsOne", "temp_total_gls_one, normal exit, all flags False at entry", {}, blk(("g1",))))
     P.append(("tempConfig", "temp_config, body raises", {}, blk(("tc", 1, v[8]), raise_)))
     P.append(("tempConfig", "temp_config, normal exit", {}, blk(("tc", 0, v[8]))))
     for site, c in (("pw", ("pw", [[("r", 0)], [("i", 1), ("r", 2)]])), ("pwBase", ("pwb", [[0], [1, 2]])), ("pwi", ("pwi",))):
@@ -504,7 +552,7 @@ def probes(rig):
     return out
 
 
-def observe_fix_flags(rig, results):
+def observe_fix_flags(results):
     """a site carries the fix iff none of its probes is blamed on a component that site owns"""
     own = {
         "absTemp": ("at", None), "vmTemp": ("vt", None), "vmMask": (None, "mask_vars"), "usedRes": ("ur", None),
@@ -564,7 +612,7 @@ def gen_sel(rig, rnd, res_only=False):
 
 
 def gen_pdict(rig, rnd, bad_ok, pool):
-    ks = rnd.sample(pool, rnd.choice([1, 1, 2, 3]))
+    ks = list(dict.fromkeys(rnd.sample(pool, rnd.choice([1, 1, 2, 3]))))  # a dict has every key once
     items = [(k, rnd.choice(rig.rand_ids)) for k in ks]
     if bad_ok and rnd.random() < 0.12:
         j = rnd.randrange(len(items))
@@ -661,13 +709,13 @@ def has_fault(p):
 # the check
 # --------------------------------------------------------------------------
 
-_RIG = [None]
+_RIG = {}
 
 
-def rig():
-    if _RIG[0] is None:
-        _RIG[0] = Rig()
-    return _RIG[0]
+def rig(name="A"):
+    if name not in _RIG:
+        _RIG[name] = Rig(name)
+    return _RIG[name]
 
 
 def systematic(R, quick):
@@ -687,38 +735,46 @@ def systematic(R, quick):
 
 
 def run_cases(ctx):
-    """probes + seeded random programs on the real objects (shared by correspond and search)"""
+    """probes + systematic + seeded random programs on the real objects of both models (shared by correspond and search).
+    Returns (flags, items) with items = (case name, rig, initial state, program, run record)."""
     if getattr(ctx, "c17_cases", None) is not None:
         return ctx.c17_cases
-    R = rig()
-    base = R.base_state()
-    pr = [(p, R.run(p[2], p[3])) for p in probes(R)]
-    flags = observe_fix_flags(R, pr)
+    rigs = [rig("A"), rig("B")]
+    items = []
+    for R in rigs:
+        items += [("probe[%s]: %s" % (R.name, p[1]), R, p[2], p[3], R.run(p[2], p[3]), p[0]) for p in probes(R)]
+    n_probes = len(items)
+    flags = observe_fix_flags([((it[5], it[0], it[2], it[3]), it[4]) for it in items])
+    items = [it[:5] for it in items]
     rnd = random.Random(1000003 * ctx.seed + 17)
-    n = 120 if ctx.quick else 1500
+    n = 100 if ctx.quick else 1500
     if ctx.suspect and ctx.quick:
         n = 300
-    cases = [(st, prog, R.run(st, prog)) for st, prog in systematic(R, ctx.quick)]
-    ctx.c17_systematic = len(cases)
+    # systematic programs run on the model with shared decay objects (quick) / on both (thorough)
+    for R in (rigs[1:] if ctx.quick else rigs):
+        items += [("systematic[%s] %d" % (R.name, i), R, st, prog, R.run(st, prog)) for i, (st, prog) in enumerate(systematic(R, ctx.quick))]
+    n_sys = len(items) - n_probes
     for i in range(n):
+        R = rigs[i % 2]
         st = gen_state(R, rnd)
         prog = gen_prog(R, rnd, 4, [rnd.choice([2, 4, 6, 12])], cheap=(rnd.random() < 0.6))
         # quick tier: in two programs out of three only the first density evaluation of each computation is a
         # real one (later ones return that tensor again); the state handling under test is the same
-        cases.append((st, prog, R.run(st, prog, replay_evals=ctx.quick and i % 3 != 0)))
-    R.put(base)
-    ctx.c17_cases = (pr, flags, cases)
+        items.append(("program[%s] %d" % (R.name, i), R, st, prog, R.run(st, prog, replay_evals=ctx.quick and i % 3 != 0)))
+    for R in rigs:
+        R.put(R.base_state())
+    ctx.c17_counts = {"probes": n_probes, "systematic": n_sys, "random": n}
+    ctx.c17_cases = (flags, items)
     return ctx.c17_cases
 
 
 def correspond(ctx, res):
-    R = rig()
-    pr, flags, cases = run_cases(ctx)
-    items = [("probe: " + p[1], p[2], p[3], r) for p, r in pr] + [("program %d" % i, st, prog, r) for i, (st, prog, r) in enumerate(cases)]
-    lines = [line(R, flags, st, prog) for _, st, prog, _ in items]
+    flags, items = run_cases(ctx)
+    cnt = ctx.c17_counts
+    lines = [line(R, flags, st, prog) for _, R, st, prog, _ in items]
     outs = ctx.model.query(lines)
     dis = []
-    for (name, st, prog, r), out in zip(items, outs):
+    for (name, R, st, prog, r), out in zip(items, outs):
         if out == "bad-op":
             raise C.ModelBroken("model rejected " + " ".join(s_prog(prog)))
         m_raised, m_snap = parse_out(R, out)
@@ -726,14 +782,18 @@ def correspond(ctx, res):
             comp = [c for c in COMPONENTS if m_snap[c] != r["after"][c]]
             dis.append({"case": name, "program": " ".join(s_prog(prog)), "differs": comp + ([] if m_raised == r["raised"] else ["raised"]),
                         "impl": {c: r["after"][c] for c in comp}, "model": {c: m_snap[c] for c in comp}, "impl_exception": r["text"]})
-    nodes = sum(prog_size(p) for _, _, p, _ in items)
+    nodes = sum(prog_size(it[3]) for it in items)
+    cases = [(it[2], it[3], it[4]) for it in items[cnt["probes"]:]]
     res.coverage.update({
         "traces_validated_against_impl": len(items),
-        "evaluations": sum(r["evals"] for _, _, _, r in items),
-        "distinct_nontrivial": len({" ".join(s_prog(p)) for _, _, p, _ in items if prog_size(p) >= 2 or has_fault(p)}),
-        "rule": "probes (one per defect site and outcome) + systematic programs (every ordered pair of block kinds with a normal / raising innermost body; thorough: every block kind around every computation kind, fault-free / first evaluation raising) + seeded random programs, nesting depth <= 4, <= 12 nodes, random initial state (parameter overrides, mask, chain selection incl. stale not_full, mask_factor, ls selection); non-trivial = distinct programs with >= 2 nodes or a fault",
+        "evaluations": sum(it[4]["evals"] for it in items),
+        "distinct_nontrivial": len({it[1].name + " " + " ".join(s_prog(it[3])) for it in items if prog_size(it[3]) >= 2 or has_fault(it[3])}),
+        "rule": "two real models: A = 3-body, every chain its own decay objects; B = 4-body cascade, the decay A->X+E (2 couplings) and the resonance X shared by all three chains; mask_factor / ls observed per distinct object. Probes (one per defect site and outcome, on both models) + systematic programs on B (thorough: A and B) (every ordered pair of block kinds with a normal / raising innermost body; thorough: every block kind around every computation kind, fault-free / first evaluation raising) + seeded random programs, nesting depth <= 4, <= 12 nodes, random initial state (parameter overrides, mask, chain selection incl. stale not_full, mask_factor, ls selection); non-trivial = distinct programs with >= 2 nodes or a fault",
         "exhaustive": False,
-        "programs": len(cases), "systematic_programs": getattr(ctx, "c17_systematic", 0), "probes": len(pr), "block_and_compute_nodes": nodes,
+        "programs": len(cases), "systematic_programs": cnt["systematic"], "random_programs": cnt["random"], "probes": cnt["probes"], "block_and_compute_nodes": nodes,
+        "programs_on_shared_decay_model": sum(1 for it in items if it[1].name == "B"),
+        "shared_decay_objects": {R.name: [str(R.decays[i]) for i in R.shared_decays] for R in (rig("A"), rig("B"))},
+        "density_compared_before_after": len(items), "object_attributes_compared": {R.name: len(R.attrs()) for R in (rig("A"), rig("B"))}, "density_changed_with_state_leak": sum(1 for it in items if it[4]["density_changed"]),
         "programs_with_fault": sum(1 for _, p, _ in cases if has_fault(p)),
         "programs_raised": sum(1 for _, _, r in cases if r["raised"]),
         "max_depth": max([prog_depth(p) for _, p, _ in cases] + [0]),
@@ -741,8 +801,8 @@ def correspond(ctx, res):
         "model_variant": "fixed" if all(flags.values()) else ("as-is" if not any(flags.values()) else "mixed"),
         "disagreements": len(dis),
     })
-    res.samples += [{"case": items[i][0], "program": " ".join(s_prog(items[i][2])), "impl_raised": items[i][3]["raised"], "model": outs[i][:160]}
-                    for i in (0, len(pr), len(items) // 2, len(items) - 1)]
+    res.samples += [{"case": items[i][0], "program": " ".join(s_prog(items[i][3])), "impl_raised": items[i][4]["raised"], "model": outs[i][:160]}
+                    for i in (0, cnt["probes"], len(items) // 2, len(items) - 1)]
     if dis:
         res.broke("correspondence Override.exec vs real objects (variant %s)" % res.coverage["model_variant"], dis[:5])
 
@@ -750,11 +810,10 @@ def correspond(ctx, res):
 def search(ctx, res):
     """property statement on the implementation: every executed block / computation leaves the observable state as it
     found it (also when it is left by an exception), and the density of the fixed sample is unchanged"""
-    pr, flags, cases = run_cases(ctx)
+    flags, items = run_cases(ctx)
     seen = {}
     n_leaky = 0
-    items = [("probe: " + p[1], p[2], p[3], r) for p, r in pr] + [("program %d" % i, st, prog, r) for i, (st, prog, r) in enumerate(cases)]
-    for name, st, prog, r in items:
+    for name, R, st, prog, r in items:
         found = []
         leaks(r["nodes"], found)
         if found:
@@ -765,13 +824,16 @@ def search(ctx, res):
             seen[key] = True
             res.fail(key, "%s leaves %s changed (%s exit%s): %s -> %s; program: %s" % (
                 SITE_NAME[nd["prog"][1][0]], comp, nd["outcome"], (", entry " + "+".join(nd["entry"])) if nd["entry"] else "",
-                _short(nd["before"][comp]), _short(nd["after"][comp]), " ".join(s_prog(prog))),
-                {"init": st, "prog": prog, "key": key})
+                _short(nd["before"][comp]), _short(nd["after"][comp]), "model %s: " % R.name + " ".join(s_prog(prog))),
+                {"rig": R.name, "init": st, "prog": prog, "key": key})
         if not found and r["after"] != r["before"]:
-            res.fail("unattributed-state-change", "state changed outside any block / computation: " + " ".join(s_prog(prog)), {"init": st, "prog": prog})
+            res.fail("unattributed-state-change", "state changed outside any block / computation: model %s: " % R.name + " ".join(s_prog(prog)), {"rig": R.name, "init": st, "prog": prog})
+        for a in r["hidden_attrs"]:
+            res.fail("object-attribute-changed-with-equal-observed-state:" + a, "attribute %s of a chain / decay / particle object differs after the program although the observed state is restored: model %s: %s" % (
+                a, R.name, " ".join(s_prog(prog))), {"rig": R.name, "init": st, "prog": prog})
         if not r["same_density"]:
-            res.fail("density-changed-with-equal-observed-state", "density of the fixed sample differs although the observed state is restored: " + " ".join(s_prog(prog)),
-                     {"init": st, "prog": prog})
+            res.fail("density-changed-with-equal-observed-state", "density of the fixed sample differs although the observed state is restored: model %s: " % R.name + " ".join(s_prog(prog)),
+                     {"rig": R.name, "init": st, "prog": prog})
     res.coverage["search_programs"] = len(items)
     res.coverage["search_programs_with_a_leak"] = n_leaky
     res.coverage["search_leak_keys"] = sorted(seen)
@@ -787,8 +849,8 @@ def _tuplify(p):
 
 
 def replay(ctx, payload):
-    R = rig()
     rp = payload.get("replay") or {}
+    R = rig(rp.get("rig", "A"))
     if "prog" not in rp:
         print("nothing to replay: " + str(payload.get("broken"))[:500])
         return 1
@@ -800,7 +862,11 @@ def replay(ctx, payload):
     for key, nd, comp in found:
         print("leak %s: %s -> %s" % (key, _short(nd["before"][comp]), _short(nd["after"][comp])))
     R.put(R.base_state())
-    return 1 if (found or not r["same_density"]) else 0
+    if not r["same_density"]:
+        print("density of the fixed sample changed although the observed state is restored")
+    if r["hidden_attrs"]:
+        print("attributes changed although the observed state is restored: %s" % r["hidden_attrs"])
+    return 1 if (found or not r["same_density"] or r["hidden_attrs"]) else 0
 
 
 MANIFEST = {
